@@ -27,6 +27,11 @@ def main() -> int:
         env['PYTHONHASHSEED'] = env.get('VERIF_HARNESS_HASHSEED', '0')
         env['PYTHONDONTWRITEBYTECODE'] = '1'
         env.pop('SOURCE_DATE_EPOCH', None)
+        argv = list(sys.argv)
+        for i, a in enumerate(argv[:-1]):
+            if a == '--replay':
+                argv[i + 1] = os.path.abspath(argv[i + 1])
+        sys.argv = argv
         cwd = tempfile.mkdtemp(prefix='verif-cwd-', dir=_scratch_root())
         env['VERIF_CWD'] = cwd
         env['VERIF_SCRATCH'] = _scratch_root()
